@@ -373,6 +373,9 @@ func fixUnusedImports(src string) string {
 		f := strings.Fields(t)
 		path := strings.Trim(f[len(f)-1], "\"")
 		name := path[strings.LastIndex(path, "/")+1:]
+		if strings.HasPrefix(name, "go-") {
+			name = name[3:] // github.com/elastic/go-ucfg is package ucfg
+		}
 		if len(f) == 2 {
 			name = f[0]
 		}
